@@ -187,6 +187,13 @@ func init() {
 			}
 			sb.WriteString("def " + m.lean + " : List String := " + LeanStrList(CallSeq(fd)) + "\n")
 		}
+		// what the deferred function literal of snappyReader.Uncompress re-initialises (CallSeq prints only "defer:?")
+		if fd := FindFunc(snp, "snappyReader", "Uncompress"); fd == nil {
+			return "", fmt.Errorf("snappyReader.Uncompress not found")
+		} else {
+			sb.WriteString("\n/-- calls inside the deferred function literal(s) of `snappyReader.Uncompress`, in source order -/\n")
+			sb.WriteString("def snappyReaderUncompressDeferred : List String := " + LeanStrList(deferredLitCalls(fd)) + "\n")
+		}
 		// statement shape of TSDDecoder.reset: which assignments run on the first-use path and on the re-arm path
 		if fd := FindFunc(tsd, "TSDDecoder", "reset"); fd == nil {
 			return "", fmt.Errorf("TSDDecoder.reset not found")
@@ -196,6 +203,29 @@ func init() {
 		}
 		return sb.String(), nil
 	}})
+}
+
+// deferredLitCalls lists the calls made inside `defer func() { ... }()` literals of fd (top level of the body).
+func deferredLitCalls(fd *ast.FuncDecl) []string {
+	var out []string
+	for _, st := range fd.Body.List {
+		ds, ok := st.(*ast.DeferStmt)
+		if !ok {
+			continue
+		}
+		fl, ok := ds.Call.Fun.(*ast.FuncLit)
+		if !ok {
+			out = append(out, exprName(ds.Call.Fun))
+			continue
+		}
+		ast.Inspect(fl.Body, func(n ast.Node) bool {
+			if ce, ok := n.(*ast.CallExpr); ok {
+				out = append(out, exprName(ce.Fun))
+			}
+			return true
+		})
+	}
+	return out
 }
 
 // stmtShape flattens a statement list: assignments to selector expressions become "set:<field>", expression
